@@ -429,6 +429,7 @@ type genCfg struct {
 	Sharded  bool   `json:"sharded,omitempty"`
 	Path     string `json:"wrap_path,omitempty"`
 	Excl     bool   `json:"exclusive,omitempty"`
+	Dirname  string `json:"dirname,omitempty"`
 }
 
 func (g genCfg) String() string {
@@ -467,6 +468,9 @@ func runGenForced(t *testing.T, g genCfg, x *xplore.Ctx, forceWord, forceExt int
 		}
 		if g.Bitwidth > 0 {
 			opts = append(opts, testutil.WithShardBitwidth(g.Bitwidth))
+		}
+		if g.Dirname != "" {
+			opts = append(opts, testutil.WithDirname(g.Dirname))
 		}
 		if g.Custom {
 			made := 0
@@ -530,7 +534,8 @@ func runGenForced(t *testing.T, g genCfg, x *xplore.Ctx, forceWord, forceExt int
 	if full {
 		// the library's own read-back and comparison must agree too
 		ok := t.Run("cmp", func(t *testing.T) {
-			back := testutil.ToDirEntry(t, *ls, de.Root, true)
+			// read back under the path the directory was generated at
+			back := testutil.ToDirEntryFrom(t, *ls, de.Root, g.Dirname, true)
 			testutil.CompareDirEntries(t, de, back)
 		})
 		if !ok {
@@ -558,6 +563,11 @@ func configs(quick bool) []genCfg {
 		}
 	}
 	out = append(out, genCfg{Gen: "UnixFSDirectory", Size: 64, Custom: true}, genCfg{Gen: "UnixFSDirectory", Size: 64, Custom: true, Bitwidth: 3})
+	// a directory built as a child: its own path is the dirname as given, its
+	// entries' paths are that plus "/" plus their name, whatever the spelling
+	for _, dn := range []string{"top", "/top", "a/b", "/top/", "./x"} {
+		out = append(out, genCfg{Gen: "UnixFSDirectory", Size: 64, Dirname: dn}, genCfg{Gen: "UnixFSDirectory", Size: 64, Dirname: dn, Custom: true})
+	}
 	out = append(out, genCfg{Gen: "GenerateDirectoryFrom", Size: 64, Sharded: true})
 	out = append(out, genCfg{Gen: "BuildDirectory"}, genCfg{Gen: "BuildDirectory", Sharded: true})
 	// paths with empty segments name the same entries as without them
